@@ -233,3 +233,101 @@ class OmbottInit(Contract):
 
 
 CONTRACTS = [HeaderDictCopy(), ResponseCopy(), OmbottInit()]
+
+
+class _NoKeywords(Val):
+    """**kw of a call without keyword arguments: an empty dict (falsy); only .get is used"""
+    def truth(self, X=None):
+        return z3.BoolVal(False)
+
+
+class ConfigGetFrom(Contract):
+    """SimpleConfig.get_from: every call builds a NEW NameSpace (never hands the argument back, whatever it is: None, a dict, another
+    configuration object - an application constructed from another application's .config must get its own object) with one entry
+    per key of the class, taken from the argument, else from the keywords, else the class default."""
+    props = ('C10', 'C12', 'C13')
+    file = 'ombott/common_helpers.py'
+    qualname = 'SimpleConfig.get_from'
+    assumptions = ('cls.items() yields the (key, default) pairs of the class; two keys are checked (comprehension unrolled)',)
+    expected_labels = ('post.a_new_namespace_with_one_entry_per_key_from_argument_keywords_default',)
+
+    def pre(self, X):
+        self.arg_kind = X.choose(3, 'src_config: None | a dict | a configuration object (NameSpace)')
+        self.keys = [X.fresh_str('k0'), X.fresh_str('k1')]
+        self.dflts = [VOpaque(X.fresh(PyObj, 'd0'), 'v'), VOpaque(X.fresh(PyObj, 'd1'), 'v')]
+        self.src = NONE if self.arg_kind == 0 else VObj('SrcDict' if self.arg_kind == 1 else 'SrcNameSpace', {})
+        self.kw = _NoKeywords()
+        self.built, self.gets = [], []
+        c = self
+
+        def src_get(X, args, kwargs):
+            r = VOpaque(X.fresh(PyObj, 'from_src'), 'v')
+            c.gets.append(('src', list(args[1:]), r))
+            return r
+
+        def kw_get(X, args, kwargs):
+            r = VOpaque(X.fresh(PyObj, 'from_kw'), 'v')
+            c.gets.append(('kw', list(args[1:]), r))
+            return r
+
+        def keys_of(X, args, kwargs):
+            return VObj('KeyView', {})
+        self.stubs = {'Cls.items': lambda X, a, k: VList([VTuple([kk, dd]) for kk, dd in zip(c.keys, c.dflts)]),
+                      'Cls.keys': keys_of, 'SrcDict.get': src_get, 'SrcNameSpace.get': src_get, 'SrcDict.keys': keys_of,
+                      'SrcNameSpace.keys': keys_of, 'EmptyDict.get': src_get, 'StrDict.get': kw_get}
+        return {'cls': VObj('Cls', {}), 'src_config': self.src, 'kw': self.kw}
+
+    def isinstance_hook(self, X, v, classes):
+        if isinstance(v, VObj) and v.cls in ('SrcDict', 'SrcNameSpace'):
+            names = {getattr(k, '__name__', '') for k in classes}
+            if 'NameSpace' in names:
+                return z3.BoolVal(v.cls == 'SrcNameSpace')
+            if dict in classes:
+                return z3.BoolVal(True)
+        return None
+
+    def construct_hook(self, X, pyclass, args, kwargs):
+        if getattr(pyclass, '__name__', '') == 'NameSpace':
+            o = VObj('NewNameSpace', {})
+            self.built.append((list(args), dict(kwargs), o))
+            return o
+        if pyclass is dict and not args and not kwargs:
+            return VObj('EmptyDict', {})
+        if pyclass is set and len(args) == 1:
+            return VObj('KeyView', {})
+        return None
+
+    def compare_hook(self, X, op, a, b):
+        if isinstance(a, VObj) and a.cls == 'KeyView' or isinstance(b, VObj) and b.cls == 'KeyView':
+            return X.fresh_bool('key_sets_compare').t
+        return None
+
+    def method_hook(self, X, obj, name, args, kwargs):
+        if isinstance(obj, _NoKeywords) and name == 'get':
+            r = VOpaque(X.fresh(PyObj, 'from_kw'), 'v')
+            self.gets.append(('kw', list(args), r))
+            return r
+        return None
+
+    def post(self, X, ret):
+        ok = len(self.built) == 1 and ret is self.built[0][2] and not self.built[0][0]
+        if ok:
+            d = self.built[0][1].get('**')
+            pairs = getattr(d, 'pairs', None)
+            ok = set(self.built[0][1]) == {'**'} and pairs is not None and len(pairs) == len(self.keys)
+            if ok:
+                for (k, v), key, dflt in zip(pairs, self.keys, self.dflts):
+                    # the value of each key: what the argument's get() answered when asked for (key, <what the keywords' get()
+                    # answered when asked for (key, class default)>)
+                    src = [g for g in self.gets if g[0] == 'src' and g[2] is v]
+                    ok = ok and k is key and len(src) == 1 and len(src[0][1]) == 2 and src[0][1][0] is key
+                    if ok:
+                        inner = [g for g in self.gets if g[0] == 'kw' and g[2] is src[0][1][1]]
+                        ok = len(inner) == 1 and inner[0][1] == [key, dflt]
+        X.prove('post.a_new_namespace_with_one_entry_per_key_from_argument_keywords_default', z3.BoolVal(bool(ok)))
+
+    def post_raise(self, X, exc):
+        X.prove('raises.nothing', z3.BoolVal(False))
+
+
+CONTRACTS.append(ConfigGetFrom())
